@@ -714,5 +714,85 @@ def replay(path):
 
 
 def selftest(args):
-    print("selftest: not implemented yet")
-    return 0
+    """Demonstrates that the machinery is bound and non-vacuous (not a property check):
+    1. every deviation switch (the pinned implementation's behaviour) makes TLC report the expected violation;
+    2. corrupting one recorded field / dropping one event makes trace validation reject the trace."""
+    run = vp.Run("selftest", "quick", 1)
+    ok = True
+    try:
+        devs = [
+            ("MC_Lexer", lexer_cfg("AlphaA", 4, emit=False).replace("DevIntended", "DevAsCoded"), "lexer as coded", r"Invariant \w+ is violated"),
+            ("MC_Expr", expr_cfg("pairs", emit=False, dev="DevPAsCoded"), "right operand at SUM", r"Invariant InvRoundTrip is violated"),
+            ("MC_Loader", LOADER_CFG.replace("DevKIntended", "DevKAsCoded"), "map-order loading", r"Invariant Deterministic is violated"),
+            ("MC_Api", api_cfg("interleave", "{1, 2}", True, dev="DevAAsCoded").replace("Emit_ = TRUE", "Emit_ = FALSE"),
+             "string API writes the mode flag", r"(SoloEq|RenderFramesState) (is|was) violated"),
+            ("MC_Parser", (PARSER_CFG % (3, "small")).replace("DevP2Intended", "DevP2AsCoded").replace("Emit_ = TRUE", "Emit_ = FALSE"),
+             "block / object loops as coded", r"Termination was violated"),
+        ]
+        for mod, cfg, what, pat in devs:
+            st = run.tlc(mod, cfg, name="Dev_" + mod, timeout=900, workers=4, expect_violation=True)
+            out = open(st["out"], errors="replace").read()
+            hit = re.search(pat, out) is not None
+            print("dev-switch %-10s %-40s -> %s" % (mod, what, "violation found (expected)" if hit else "NO VIOLATION (vacuous!)"))
+            ok = ok and hit
+        # trace binding: lexer
+        base = os.path.join(run.dir, "st.ndjson")
+        run.harness_cmd(["lextrace", "-fixtures", vp.REPO, "-random", "40", "-out", base, "-shards", "1"])
+        lines = open(base + ".0").read().splitlines()
+
+        def validate(ls, name):
+            p = os.path.join(run.dir, name + ".ndjson")
+            open(p, "w").write("\n".join(ls) + "\n")
+            st = run.tlc("Trace_Lexer", TRACE_LEXER_CFG % p, name=name, timeout=900, workers=1)
+            vpath, cnt = run.records(st)
+            return [json.loads(l) for l in open(vpath)]
+        good = validate(lines, "st_good")
+        clean = all(v["c19"] == "ok" and not v["drift"] for v in good)
+        print("trace-binding lexer: %d unmodified traces accepted: %s" % (len(good), clean))
+        ok = ok and clean
+        rec = json.loads(lines[0])
+        k = min(2, len(rec["toks"]) - 1)
+        rec["toks"][k]["ec"] += 1
+        bad = validate([json.dumps(rec)] + lines[1:], "st_badcol")
+        rej = bool(bad[0]["drift"]) or bad[0]["c19"] != "ok"
+        print("trace-binding lexer: end column of token %d corrupted -> %s" % (k, "rejected: " + json.dumps(bad[0])[:200] if rej else "ACCEPTED (not bound!)"))
+        ok = ok and rej
+        rec = json.loads(lines[0])
+        del rec["toks"][1]
+        bad = validate([json.dumps(rec)] + lines[1:], "st_drop")
+        rej = bool(bad[0]["drift"]) or bad[0]["c19"] != "ok"
+        print("trace-binding lexer: one event dropped -> %s" % ("rejected" if rej else "ACCEPTED (not bound!)"))
+        ok = ok and rej
+        rec = json.loads(lines[0])
+        rec["toks"][0]["html"] = not rec["toks"][0]["html"]
+        bad = validate([json.dumps(rec)] + lines[1:], "st_mode")
+        rej = bool(bad[0]["drift"])
+        print("trace-binding lexer: private mode flag corrupted -> %s" % ("rejected" if rej else "ACCEPTED (not bound!)"))
+        ok = ok and rej
+        # trace binding: API
+        path = os.path.join(run.dir, "apitrace.ndjson")
+        env = dict(vp.GOENV, VERIF_API_TRACE=path)
+        subprocess.run(["go", "test", "-tags", "verif", "-vet=off", "-count=1", "."], cwd=vp.REPO, env=env, capture_output=True)
+        tl = open(path).read().splitlines()
+        for i, l in enumerate(tl):
+            r = json.loads(l)
+            if r["point"] == "EvaluateString.exit" and r["state"]["usesTemplates"]:
+                r["state"]["usesTemplates"] = False
+                tl[i] = json.dumps(r)
+                break
+        p2 = os.path.join(run.dir, "apitrace_bad.ndjson")
+        open(p2, "w").write("\n".join(tl) + "\n")
+        st = run.tlc("Trace_Api", TRACE_API_CFG % p2, name="Trace_Api_bad", timeout=900, workers=1)
+        vpath, cnt = run.records(st)
+        rep = json.loads(open(vpath).readline())
+        rej = bool(rep["bad"])
+        print("trace-binding API: mode flag flipped at line %d -> %s" % (i + 1, "rejected at line %s" % rep["bad"][0] if rej else "ACCEPTED (not bound!)"))
+        ok = ok and rej
+    except vp.Infra as e:
+        print("selftest infrastructure failure:", e)
+        ok = False
+    finally:
+        if not os.environ.get("VERIF_KEEP"):
+            run.cleanup()
+    print("selftest", "PASSED" if ok else "FAILED")
+    return 0 if ok else 1
